@@ -52,6 +52,8 @@ type ProvSpec struct {
 	AttestationRoots []byte
 	// ForceCN sets the provisioner's forceCN option (common name forced to the first DNS name).
 	ForceCN bool
+	// Tmpl, if set, is used verbatim as the configured provisioner (Name must equal Tmpl.Name).
+	Tmpl *provisioner.ACME
 }
 
 type Env struct {
@@ -140,6 +142,18 @@ func mkCA() (root, inter *x509.Certificate, signer crypto.Signer, err error) {
 
 // New builds the stack. wrap (may be nil) lets the caller interpose on acme.DB.
 func New(provs []ProvSpec, wrap func(acme.DB) acme.DB) (*Env, error) {
+	return newEnv(provs, wrap, false)
+}
+
+// NewMigrated builds the stack the way a first start with remote management does: the provisioners
+// are written in the configuration (ca.json form), `enableAdmin` is on and the admin database is
+// empty, so authority.New migrates them (ProvisionerToLinkedca, admin DB) and from then on serves
+// what it reads back (ProvisionerToCertificates). Env.Provs holds the provisioners AS SERVED.
+func NewMigrated(provs []ProvSpec, wrap func(acme.DB) acme.DB) (*Env, error) {
+	return newEnv(provs, wrap, true)
+}
+
+func newEnv(provs []ProvSpec, wrap func(acme.DB) acme.DB, migrate bool) (*Env, error) {
 	dir, err := os.MkdirTemp(tmpBase(), "verif-acme-")
 	if err != nil {
 		return nil, err
@@ -168,19 +182,40 @@ func New(provs []ProvSpec, wrap func(acme.DB) acme.DB) (*Env, error) {
 			p.AttestationRoots = ps.AttestationRoots
 			p.AttestationFormats = []provisioner.ACMEAttestationFormat{provisioner.STEP}
 		}
+		if ps.Tmpl != nil {
+			p = ps.Tmpl
+		}
 		e.Provs[ps.Name] = p
 		plist = append(plist, p)
 	}
 	cfg := &config.Config{
 		DNSNames:        []string{Host},
-		AuthorityConfig: &config.AuthConfig{Provisioners: plist},
+		AuthorityConfig: &config.AuthConfig{Provisioners: plist, EnableAdmin: migrate},
 	}
-	a, err := authority.NewEmbedded(authority.WithConfig(cfg), authority.WithDatabase(adb),
-		authority.WithX509RootCerts(root), authority.WithX509Signer(inter, signer), authority.WithQuietInit())
+	opts := []authority.Option{authority.WithConfig(cfg), authority.WithDatabase(adb),
+		authority.WithX509RootCerts(root), authority.WithX509Signer(inter, signer), authority.WithQuietInit()}
+	if migrate {
+		opts = append(opts, authority.WithPassword([]byte("verif-first-provisioner")))
+	}
+	a, err := authority.NewEmbedded(opts...)
 	if err != nil {
 		return nil, err
 	}
 	e.Auth = a
+	if migrate {
+		// what the authority serves now comes from the admin database
+		for name := range e.Provs {
+			p, err := a.LoadProvisionerByName(name)
+			if err != nil {
+				return nil, err
+			}
+			ap, isACME := p.(*provisioner.ACME)
+			if !isACME {
+				return nil, errors.New("migrated provisioner is not an ACME provisioner")
+			}
+			e.Provs[name] = ap
+		}
+	}
 	ndb, isNoSQL := a.GetDatabase().(nosql.DB)
 	if !isNoSQL {
 		return nil, errors.New("authority database is not a nosql.DB")
